@@ -73,7 +73,8 @@ class Renderer:
             raise AnchorError("IND_SPACES constant not found")
         syn = facts.syn
         f = syn.one_fn("newline_if_body", mod="generate::ast")
-        m = strip(tail_expr(f["body"]))
+        from .common import inline_lets
+        m = strip(tail_expr(inline_lets(f["body"])))   # `let body_ind = ind + 1;` before the match is the same helper
         if m is None or m.get("k") != "match" or src(strip(m["e"])) != "core":
             raise AnchorError("newline_if_body is no longer a `match core`")
         self.nib_fn = f
@@ -454,15 +455,17 @@ def _helpers(chk, facts, pm, rd):
         lit = [n for n in walk(f["body"]) if n.get("k") == "lit" and n.get("t") == "str"]
         ok = ok and len(lit) == 1 and lit[0]["v"] == " "
         chk.ob("R-C02-2", "indent", ok, f"indent(n) = n * {rd.ind_spaces} spaces" if ok else "indent() is no longer `\" \".repeat(IND_SPACES * amount)`", facts.loc_of(f))
+        from .common import inline_lets
         f = syn.one_fn("newline_delimited", mod="generate::ast")
-        fa = [n for n in walk(f["body"]) if n.get("k") == "macro" and n.get("name", "").endswith("format_args") and n.get("args")]
-        ok = len(fa) == 1 and fa[0]["args"][0].get("v") == "{0}{1}\n" and [src(strip(a)).replace(" ", "") for a in fa[0]["args"][1:]] == ["indent(ind)", "to_py(item,ind)"]
+        fa = [n for n in walk(inline_lets(f["body"])) if n.get("k") == "macro" and n.get("name", "").endswith("format_args") and n.get("args")]   # closure or for loop alike
+        from .common import format_sequence
+        ok = len(fa) == 1 and format_sequence(fa[0]) == ["indent(ind)", "to_py(item,ind)", "\n"]
         chk.ob("R-C02-2", "newline_delimited", ok, "newline_delimited: every item on its own line at indent(ind), printed at ind" if ok else
                "newline_delimited no longer prints `indent(ind) + to_py(item, ind) + newline` per item: statements of a block are misaligned", facts.loc_of(f))
         f = syn.one_fn("comma_delimited", mod="generate::ast")
-        fa = [n for n in walk(f["body"]) if n.get("k") == "macro" and n.get("name", "").endswith("format_args") and n.get("args")]
+        fa = [n for n in walk(inline_lets(f["body"])) if n.get("k") == "macro" and n.get("name", "").endswith("format_args") and n.get("args")]
         s = src(f["body"]).replace(" ", "")
-        ok = len(fa) == 1 and fa[0]["args"][0].get("v") == "{0}, " and "if(s.len()>2){s.remove((s.len()-2));}" in s and s.endswith("String::from(s.trim_end())}")
+        ok = len(fa) == 1 and format_sequence(fa[0]) == ["to_py(item,ind)", ", "] and "if(s.len()>2){s.remove((s.len()-2));}" in s and s.endswith("String::from(s.trim_end())}")
         chk.ob("R-C02-2", "comma_delimited", ok, "comma_delimited: items joined by `, `, trailing comma removed" if ok else "comma_delimited changed shape", facts.loc_of(f))
         # newline_if_body: every arm starts with a newline and prints at ind + 1
         ok = True
@@ -549,6 +552,23 @@ def _nonempty_list_expr(e, f, anc):
         for a in anc:
             if a.get("k") == "if" and src(strip(a["c"])).replace(" ", "") in (f"!{name}.is_empty()", f"(!{name}.is_empty())"):
                 return "guarded:if !is_empty"
+        # (a') the same, decided on the enumerated paths: on every path that builds the block the list is known to be non-empty
+        #      (covers `if name.is_empty() { return .. }` before the construction)
+        try:
+            from .common import fn_paths
+            found, all_guarded = False, True
+            for p in fn_paths(f["body"]):
+                roots = ([p.result] if p.result is not None else []) + list(p.events)
+                hit = any(n.get("k") == "struct" and n["p"] == "Core::Block" and src(strip(dict(n["fields"]).get("statements", {}))) == name
+                          for r in roots for n in walk(r))
+                if hit:
+                    found = True
+                    if p.holds(f"{name}.is_empty()") is not False:
+                        all_guarded = False
+            if found and all_guarded:
+                return "guarded:non-empty on every path"
+        except AnchorError:
+            pass
         # (b) local defined as `if x.is_empty() { vec![..] } else { x }`
         for n in walk(f["body"]):
             if n.get("k") == "local" and src(n["pat"]) == name and n.get("init") is not None:
